@@ -95,6 +95,124 @@ fn find_wide(l: &Layout, w: usize) -> bool {
     l.stages.iter().any(|s| s.len() >= w) || l.batches.values().flatten().any(|i| find_wide(i, w))
 }
 
+/// Everything one scenario needs, owned (it runs on its own thread so that a dispatch that never
+/// returns can be detected instead of hanging the shard).
+#[derive(Clone)]
+struct Scenario {
+    plan: Plan,
+    ev: usize,
+    reps: usize,
+    pts: Vec<Vec<u32>>,
+    ctxt: Ctxt,
+    pool: Option<Pool>,
+    warmup: usize,
+    back_to_back: bool,
+    par_only: bool,
+    foreign: Option<Pool>,
+}
+
+/// One complete scenario on a fresh dispatcher: warm-up history, then `reps` dispatches whose
+/// group heads rendezvous. Returns (rendezvous completed, participants that gave up).
+fn run_scenario(p: &Scenario) -> (usize, usize) {
+    let (plan, ev, reps, pts, ctxt, warmup, back_to_back, par_only) = (&p.plan, p.ev, p.reps, &p.pts, p.ctxt, p.warmup, p.back_to_back, p.par_only);
+    let use_pool = p.pool.as_ref();
+    let foreign = &p.foreign;
+
+        let ctx = Ctx::new(plan.n_uids(), (ev + 16) * 2);
+        let mut completed = 0usize;
+        let mut gave_up = 0usize;
+        let run_reps = |d: &mut dyn FnMut(), ctx: &Arc<Ctx>, completed: &mut usize, gave_up: &mut usize| {
+            for _ in 0..reps {
+                let o = Arc::new(Overlap::new(pts.clone(), WAIT));
+                ctx.log.reset();
+                ctx.arm(o.clone());
+                ctx.set_mode(Mode::Run);
+                d();
+                ctx.set_mode(Mode::Build);
+                ctx.disarm();
+                *completed += o.completed.load(SeqCst);
+                *gave_up += o.gave_up.load(SeqCst);
+                if *gave_up > 0 {
+                    break;
+                }
+            }
+        };
+        match ctxt {
+            Ctxt::Async => {
+                let b = instantiate(&plan, &ctx, use_pool);
+                let mut ad = b.build_async(full_world());
+                ctx.set_mode(Mode::Quiet);
+                for _ in 0..warmup {
+                    ad.dispatch();
+                    ad.wait();
+                }
+                ctx.set_mode(Mode::Build);
+                run_reps(
+                    &mut || {
+                        ad.dispatch();
+                        if back_to_back {
+                            // a second request while the first may still be in flight
+                            ad.dispatch();
+                        }
+                        ad.wait();
+                    },
+                    &ctx,
+                    &mut completed,
+                    &mut gave_up,
+                );
+            }
+            _ => {
+                let mut d = instantiate(&plan, &ctx, use_pool).build();
+                let world = full_world();
+                ctx.set_mode(Mode::Quiet);
+                for _ in 0..warmup {
+                    d.dispatch(&world);
+                }
+                ctx.set_mode(Mode::Build);
+                if let Some(f) = &foreign {
+                    // the caller is itself a worker of some *other*, narrow pool: the dispatcher's
+                    // own pool still has its idle threads (sendable form: these plans have no
+                    // thread-local systems)
+                    let mut sd = match d.try_into_sendable() {
+                        Ok(sd) => sd,
+                        Err(_) => return (0, 0),
+                    };
+                    run_reps(
+                        &mut || f.install(|| if par_only { sd.dispatch_par(&world) } else { sd.dispatch(&world) }),
+                        &ctx,
+                        &mut completed,
+                        &mut gave_up,
+                    );
+                    return (completed, gave_up);
+                }
+                run_reps(
+                    &mut || {
+                        if par_only {
+                            d.dispatch_par(&world)
+                        } else {
+                            d.dispatch(&world)
+                        }
+                    },
+                    &ctx,
+                    &mut completed,
+                    &mut gave_up,
+                );
+            }
+        }
+        (completed, gave_up)
+}
+
+/// Runs the scenario on a helper thread; None = it did not return within the (very generous) bound.
+fn run_scenario_bounded(p: &Scenario) -> Option<(usize, usize)> {
+    let (tx, rx) = std::sync::mpsc::channel();
+    let q = p.clone();
+    std::thread::spawn(move || {
+        let r = run_scenario(&q);
+        let _ = tx.send(r);
+    });
+    rx.recv_timeout(Duration::from_secs(90)).ok()
+}
+
 fn case(rng: &mut Rng, rep: &mut Report, case_no: u64, reps: usize) {
     let w = rng.range(2, 16);
     let ctxt = *rng.pick(&[Ctxt::UserPool, Ctxt::UserPool, Ctxt::DefaultPool, Ctxt::BatchInner, Ctxt::Async, Ctxt::DefaultPoolNarrowBatch]);
@@ -180,97 +298,36 @@ fn case(rng: &mut Rng, rep: &mut Report, case_no: u64, reps: usize) {
         rep.metric("dispatch_called_from_a_foreign_pool_worker", 1);
     }
     rep.metric("warmup_dispatches", warmup as i64);
-    // One complete scenario on a fresh dispatcher: warm-up history, then `reps` dispatches whose
-    // group heads rendezvous. Returns (rendezvous completed, participants that gave up).
-    let scenario = || -> (usize, usize) {
-        let ctx = Ctx::new(plan.n_uids(), (ev + 16) * 2);
-        let mut completed = 0usize;
-        let mut gave_up = 0usize;
-        let run_reps = |d: &mut dyn FnMut(), ctx: &Arc<Ctx>, completed: &mut usize, gave_up: &mut usize| {
-            for _ in 0..reps {
-                let o = Arc::new(Overlap::new(pts.clone(), WAIT));
-                ctx.log.reset();
-                ctx.arm(o.clone());
-                ctx.set_mode(Mode::Run);
-                d();
-                ctx.set_mode(Mode::Build);
-                ctx.disarm();
-                *completed += o.completed.load(SeqCst);
-                *gave_up += o.gave_up.load(SeqCst);
-                if *gave_up > 0 {
-                    break;
-                }
-            }
-        };
-        match ctxt {
-            Ctxt::Async => {
-                let b = instantiate(&plan, &ctx, use_pool);
-                let mut ad = b.build_async(full_world());
-                ctx.set_mode(Mode::Quiet);
-                for _ in 0..warmup {
-                    ad.dispatch();
-                    ad.wait();
-                }
-                ctx.set_mode(Mode::Build);
-                run_reps(
-                    &mut || {
-                        ad.dispatch();
-                        if back_to_back {
-                            // a second request while the first may still be in flight
-                            ad.dispatch();
-                        }
-                        ad.wait();
-                    },
-                    &ctx,
-                    &mut completed,
-                    &mut gave_up,
-                );
-            }
-            _ => {
-                let mut d = instantiate(&plan, &ctx, use_pool).build();
-                let world = full_world();
-                ctx.set_mode(Mode::Quiet);
-                for _ in 0..warmup {
-                    d.dispatch(&world);
-                }
-                ctx.set_mode(Mode::Build);
-                if let Some(f) = &foreign {
-                    // the caller is itself a worker of some *other*, narrow pool: the dispatcher's
-                    // own pool still has its idle threads (sendable form: these plans have no
-                    // thread-local systems)
-                    let mut sd = match d.try_into_sendable() {
-                        Ok(sd) => sd,
-                        Err(_) => return (0, 0),
-                    };
-                    run_reps(
-                        &mut || f.install(|| if par_only { sd.dispatch_par(&world) } else { sd.dispatch(&world) }),
-                        &ctx,
-                        &mut completed,
-                        &mut gave_up,
-                    );
-                    return (completed, gave_up);
-                }
-                run_reps(
-                    &mut || {
-                        if par_only {
-                            d.dispatch_par(&world)
-                        } else {
-                            d.dispatch(&world)
-                        }
-                    },
-                    &ctx,
-                    &mut completed,
-                    &mut gave_up,
-                );
-            }
+    let sc = Scenario { plan: plan.clone(), ev, reps, pts: pts.clone(), ctxt, pool: use_pool.cloned(), warmup, back_to_back, par_only, foreign: foreign.clone() };
+    let first = run_scenario_bounded(&sc);
+    if first.is_none() {
+        // The dispatch never came back although every wait inside it is bounded (4 s): the
+        // dispatcher dead-locked. Verdict only if it does so again and a fresh pool of the same
+        // size is healthy.
+        rep.metric("scenarios_that_did_not_return", 1);
+        let again = run_scenario_bounded(&sc);
+        let ctl_pool: Pool = make_pool(pool_size);
+        if again.is_none() && control(&ctl_pool, w) {
+            rep.violation(
+                &format!("dispatch_did_not_return:{:?}", ctxt),
+                &format!(
+                    "a dispatch of a stage with {} groups on a pool of {} threads ({:?}, back-to-back requests: {}) did not return within 90 s, twice, although every wait inside the systems is bounded by {:?}; a plain rendezvous on a fresh pool of that size succeeds: the dispatch dead-locked; layout {}",
+                    w, pool_size, ctxt, back_to_back, WAIT, twin.layout.brief()
+                ),
+                case_no,
+                J::obj().set("plan", plan.to_json()).set("layout", twin.layout.to_json()).set("pool", pool_size).set("context", format!("{:?}", ctxt)),
+            );
+        } else {
+            rep.inconclusive += 1;
+            rep.notes.push(format!("case {}: a scenario did not return once (width {}, pool {}): no verdict", case_no, w, pool_size));
         }
-        (completed, gave_up)
-    };
-    let (mut completed, mut gave_up) = scenario();
+        return;
+    }
+    let (mut completed, mut gave_up) = first.unwrap();
     if gave_up > 0 {
         // reproduce before believing it: the whole scenario once more on a fresh dispatcher
         rep.metric("failed_rendezvous_retried", 1);
-        let (c2, g2) = scenario();
+        let (c2, g2) = run_scenario_bounded(&sc).unwrap_or((0, 1));
         if g2 == 0 {
             rep.metric("failed_rendezvous_not_reproduced", 1);
             rep.inconclusive += 1;
